@@ -258,6 +258,13 @@ func (w *World) Batch(reqs []proto.Req, mode string) (*proto.Result, error) {
 
 // HTTP issues one request and settles all background work (mode barrier).
 func (w *World) HTTP(method, url string, body []byte) (int, []byte, error) {
+	if method == "GET" || method == "HEAD" {
+		resps, err := w.Seq([]proto.Req{{Client: "c0", Kind: "http", Method: method, URL: url, Body: body}})
+		if err != nil {
+			return 0, nil, err
+		}
+		return resps[0].Status, resps[0].Body, nil
+	}
 	res, err := w.Batch([]proto.Req{{Client: "c0", Kind: "http", Method: method, URL: url, Body: body}}, "barrier")
 	if err != nil {
 		return 0, nil, err
@@ -274,7 +281,20 @@ func (w *World) Seq(reqs []proto.Req) ([]proto.Resp, error) {
 	if len(reqs) == 0 {
 		return nil, nil
 	}
-	res, err := w.Batch(reqs, "seq")
+	mode := "seqfast"
+	for _, r := range reqs {
+		ro := (r.Kind == "http" || r.Kind == "") && (r.Method == "GET" || r.Method == "HEAD")
+		if r.Kind == "store" && r.Store != nil {
+			switch r.Store.Op {
+			case "get", "getrange", "keysinrange", "sendkeysinrange", "processrange", "rawrange":
+				ro = true
+			}
+		}
+		if !ro {
+			mode = "seq"
+		}
+	}
+	res, err := w.Batch(reqs, mode)
 	if err != nil {
 		return nil, err
 	}
